@@ -10,7 +10,8 @@ RENAME = {"mix": "add", "reduce_mix": "reduce_add"}
 
 
 DAG_EXPRS = ["softmax", "x_over_exp", "sum_over_exp", "exp_plus_exp", "sum_times_diff", "x_plus_x", "prod_plus_x", "exp_minus_expy", "yexp_minus_exp",
-             "sum_plus_sum", "gated", "gated_r", "flat_tree", "deep_shared", "deep_shared_r"]
+             "sum_plus_sum", "gated", "gated_r", "flat_tree", "deep_shared", "deep_shared_r",
+             "cat_exp_exp", "cat_x_exp", "cat_exp_x", "flat_plus_flat", "matmul_xyT", "matmul_xxT", "cat_flat_sum_diff"]
 
 
 def convert(p):
@@ -149,7 +150,7 @@ def run(tier, seed):
                "for each: the direct view, the composed functor applied to all operands at once, applied one operand at a time (currying), both groupings of the composition "
                "(f3*f2)*f1 / f3*(f2*f1) resp. (f2*f1)(a..) / f2(f1(a),..), the extracted composition applied to the extracted operands, the identity (addresses) and order of the extracted operands, "
                "and the compute graph (leaf count, unique ids, in-degree = listed operands, node accounting); all validated by TLC against the program's denotation; "
-               "compute graphs of 15 DAG expressions (a leaf or a sub-expression with several consumers, either operand order, nested sharing): exact node and edge sets against ComputeGraph.tla (terms recorded from the constructed views' own ids); "
+               "compute graphs of 22 DAG expressions (ufunc and generic extraction paths) (a leaf or a sub-expression with several consumers, either operand order, nested sharing): exact node and edge sets against ComputeGraph.tla (terms recorded from the constructed views' own ids); "
                "binary ufuncs over two leaves with a view (identity / transpose / flatten) on either side, directly and through extraction; "
                "combinators: every composition of <= 2 (thorough 3) functors over {negative, square, subtract, where, swap, dup, dig2, bury2} with arity 1..5 (TLC export from StackMachine.tla), applied all at once, "
                "one operand at a time, (1, n-1), (n-1, 1), (n/2, rest), left and right grouping; the resulting stack (one array or a tuple) must be the stack machine's, interpreted on the operand values")
